@@ -220,6 +220,8 @@ RuleBuilder& RuleBuilder::end(AbstractProgram* out) {
 		out->rule(static_cast<Head_t>(r->head.type), head(), body());
 	}
 	else {
+		// a minimize statement keeps its priority in the bound slot of its sum body
+		POTASSCO_ASSERT(r->body.type != Body_t::Normal, "Invalid call to end(): minimize statement without sum body");
 		if   (r->head.type != Directive_t::Minimize) { out->rule(static_cast<Head_t>(r->head.type), head(), *bound_(), sum().lits); }
 		else                                         { out->minimize(*bound_(), sum().lits); }
 	}
